@@ -817,8 +817,12 @@ def write_evidence(pid, tier, sel, recs, violations, known, inconclusive, wall):
               level=level, coverage=cov,
               assumptions=trusted + common,
               wall_s=round(wall, 2), violations=len(violations))
-    os.makedirs(os.path.join(VERIF, 'evidence'), exist_ok=True)
-    json.dump(ev, open(os.path.join(VERIF, 'evidence', '%s.json' % pid), 'w'), indent=1)
+    # evidence/ describes /repo itself; runs pointed at another checkout (VERIF_REPO: scratch copies with a
+    # seeded change applied) must not overwrite it
+    evdir = os.path.join(VERIF, 'evidence') if not os.environ.get('VERIF_REPO') else os.path.join(
+        tempfile.gettempdir(), 'verif_scratch_evidence')
+    os.makedirs(evdir, exist_ok=True)
+    json.dump(ev, open(os.path.join(evdir, '%s.json' % pid), 'w'), indent=1)
 
 
 def calibrate(names, jobs):
